@@ -246,6 +246,7 @@ pub fn run(ctx: &Ctx) -> i32 {
     LongScatter(u32),
     Alias(u8),
     Blocks(u8, u8),
+    SiblingShapes(u8),
     SameNumber,
   }
   let mut jobs: Vec<Job> = (0..njobs_hist).map(Job::Hist).collect();
@@ -330,6 +331,13 @@ pub fn run(ctx: &Ctx) -> i32 {
     for l2 in 1..=3u8 {
       jobs.push(Job::Blocks(l1, l2));
     }
+  }
+  // sibling-group shapes: the four children of one cell, each of them absent / full / partial /
+  // holding one full grandchild (first or last) / one partial grandchild / its four full children:
+  // all 7^4 combinations, under three parent cells, packed -- "four full siblings merge, nothing
+  // else does" is a statement about exactly these shapes
+  for v in 0..3u8 {
+    jobs.push(Job::SiblingShapes(v));
   }
   jobs.push(Job::SameNumber);
   let chunk = 256;
@@ -582,6 +590,44 @@ pub fn run(ctx: &Ctx) -> i32 {
           }
         }
       }
+      Job::SiblingShapes(variant) => {
+        // parent (t, root); siblings at depth t + 1, grandchildren at depth t + 2 = depth_max (variant 2: depth_max t + 3)
+        let (t, root): (u8, u64) = match variant { 0 => (0, 5), 1 => (1, 4 * 7 + 2), _ => (2, 16 * 10 + 7) };
+        let dm = t + 2 + if *variant == 2 { 1 } else { 0 };
+        let content = |sib: u64, c: u32| -> Vec<Entry> {
+          let s = (t + 1, sib, true);
+          match c {
+            0 => vec![],
+            1 => vec![s],
+            2 => vec![(t + 1, sib, false)],
+            3 => vec![(t + 2, sib * 4, true)],
+            4 => vec![(t + 2, sib * 4 + 3, true)],
+            5 => vec![(t + 2, sib * 4 + 1, false)],
+            _ => (0..4u64).map(|k| (t + 2, sib * 4 + k, true)).collect(),
+          }
+        };
+        for code in 0..(7u32 * 7 * 7 * 7) {
+          let mut e: Vec<Entry> = vec![];
+          let mut c = code;
+          for k in 0..4u64 {
+            e.extend(content(root * 4 + k, c % 7));
+            c /= 7;
+          }
+          if e.is_empty() {
+            continue;
+          }
+          // a cell before and a cell after the group (other base cells)
+          if code % 3 == 1 {
+            e.insert(0, (t + 1, 1, true));
+            e.push((0, 11, true));
+          }
+          let bm = Bm::new(dm, e);
+          part.stratum("sibling-group-shapes", 1, 1);
+          if let Some(v) = check_sequence("to_bmoc_packing", &bm, None, &mut part) {
+            part.viol(v);
+          }
+        }
+      }
       Job::Blocks(l1, l2) => {
         let block = |t: u8, root: u64, l: u8| -> Vec<Entry> { (0..(1u64 << (2 * l as u32))).map(|k| (t + l, (root << (2 * l as u32)) + k, true)).collect() };
         for t1 in 0..=3u8 {
@@ -735,6 +781,7 @@ pub fn run(ctx: &Ctx) -> i32 {
       "bulk": "per depth (6, 9 quick; + 12, 18, 29 thorough) a deterministic multiset of ~9000 pushes (60 clusters, a whole aligned coarse cell of 4096 cells, an unaligned run of 1500, 400 repeats) in 3 orders x 5 capacities x 2 flags",
       "repush_size_sweep": format!("a whole tile then n of its cells again + 2 cells after it, every n in 1..={}, capacity = tile size (drain = or of the packed tile with n covered entries), both flags and the reverse arrival order", sweep_max),
       "merge_cascades": format!("{} staircase sequences: every cascade length 1..=29 (3k+1 entries), 4 child paths, all full / one partial stair / partial last cell; pack and lower depths 0..3", stairs.len()),
+      "sibling_group_shapes": "the four children of a cell, each absent / full / partial / one full grandchild (first, last) / one partial grandchild / four full children: all 7^4 combinations under 3 parent cells, packed",
       "multi_block_sequences": "two / three complete blocks (t, l): the 4^l cells of depth t + l filling a cell of depth t, every t1, t2 in 0..=3 and l1, l2 in 1..=3, packed as sequences and pushed through the fixed-depth builder (3 capacities) when of one depth",
       "word_size_aliases": "quads and 16-blocks whose members are split between h + k and h + 2^w + k (w = 8, 16, 32), 6 set shapes, 4 aligned starts, sorted and reversed pushes, 3 capacities, both flags, depths 5..=29",
       "long_scattered_histories": "2^k - 1, 2^k, 2^k + 1 cells of stride 3 at depth 14 (k = 10..=16 quick / 20 thorough), 4 buffer capacities, both flags; then an aligned tile pushed over their beginning",
